@@ -221,6 +221,11 @@ func c08(tier string) []*explore.Scenario {
 	}
 	// the same windows with features combined: through a demultiplexer / a proxy with an address-rewriting callback, with stats handlers and interceptors
 	out = append(out, withConfig([]string{"via-rewriting-proxy", "demux+stats2+chain", "stats2+interceptors+services"}, c08EndToEnd(false, 0, false), c08EndToEnd(true, 0, false), c08SharedContext(false, time.Hour, 7*time.Minute, 3))...)
+	for _, stream := range []bool{false, true} {
+		for _, order := range []string{"cancelled-then-expired", "expired-then-cancelled", "cancelled-only", "expired-only"} {
+			out = append(out, c08DoneTwice(stream, order))
+		}
+	}
 	// several calls under one context (same absolute deadline), time passing in between
 	for _, stream := range []bool{false, true} {
 		out = append(out, c08SharedContext(stream, 5*time.Second, 400*time.Millisecond, 4), c08SharedContext(stream, time.Hour, 7*time.Minute, 5), c08SharedContext(stream, 300*time.Hour, 31*time.Hour, 4))
@@ -589,6 +594,59 @@ func c08SharedContext(stream bool, total, gap time.Duration, calls int) *explore
 				vsched.Sleep(gap)
 			}
 			vsched.Count("inputs", int64(calls))
+		},
+	}
+}
+
+// c08DoneTwice: the caller's context is over twice - cancelled before its deadline, and the
+// deadline has then passed as well (or the other way round) - and a call is still issued with
+// it over a transport that lets a done context merely compete with the queue. If the request
+// reaches the server at all, the handler has a deadline (the one-millisecond floor of the
+// statement) - never none, never a negative or wrapped one.
+func c08DoneTwice(stream bool, order string) *explore.Scenario {
+	fam := "C08/done-twice"
+	return &explore.Scenario{
+		Name: fmt.Sprintf("C08/done-twice/stream=%v/%s", stream, order), Family: fam, Prop: "C08", Bound: 1, Horizon: time.Nanosecond,
+		Run: func() {
+			w := env.NewWorld()
+			d := env.NewDirect(w, env.DirectOpts{Pipe: env.PipeOpts{Cap: 64, CtxRace: true}})
+			vsched.Settle()
+			ctx, cancel := context.WithTimeout(context.Background(), 50*time.Millisecond)
+			defer cancel()
+			switch order {
+			case "cancelled-then-expired":
+				cancel()
+				vsched.Sleep(80 * time.Millisecond)
+			case "expired-then-cancelled":
+				vsched.Sleep(80 * time.Millisecond)
+				cancel()
+			case "cancelled-only":
+				cancel()
+			case "expired-only":
+				vsched.Sleep(80 * time.Millisecond)
+			}
+			vsched.Explore(true)
+			var r *env.Rec
+			if stream {
+				r = w.Rec("s", "Bidi")
+				w.Handlers["s"] = func(r *env.Rec, ss grpc.ServerStream) error { return nil }
+				vsched.GoNamed("caller", func() { w.Open(d.CC, ctx, r) })
+			} else {
+				r = w.Rec("u", "Unary")
+				vsched.GoNamed("caller", func() { w.CallUnary(d.CC, ctx, r, "x") })
+			}
+			vsched.Quiesce()
+			if r.HStarts == 0 {
+				vsched.Obs("%s: the request never reached a handler (err %v)", order, r.CErr)
+				return
+			}
+			dl, has := r.HCtx.Deadline()
+			vsched.Obs("%s: handler ran, deadline present=%v", order, has)
+			if !has {
+				vsched.Fail(fam+"|deadline-lost", "a call issued under a context that was %s: the handler ran without any deadline", order)
+			} else if dl.After(time.Now().Add(time.Second)) {
+				vsched.Fail(fam+"|deadline-wrong", "a call issued under a context that was %s (deadline 50 ms, long gone): the handler's deadline is %v away", order, time.Until(dl))
+			}
 		},
 	}
 }
